@@ -11,6 +11,7 @@ RULES = {
         "and the gradient support of every optimiser update. A run is NON-TRIVIAL if it recorded >=2 epochs and >=1 "
         "gradient step; DISTINCT by signature (n, batch_size, val_prop, #cond cols, #x cols, epochs run, gradient steps, "
         "max_epochs, max_patience, return_best, rank pattern of the recorded validation losses, oracle mode)."
+        " One run index in six (C15) / two in sixteen (C16) is a GROUP of 2-3 concurrent callers: the worlds of other indices of the same bucket (30 %: two callers with the very same key, data and knobs) run on real threads under a seeded baton-passing scheduler that may switch caller at every eagerly executed line of flowjax/train/*.py (switch probability per line drawn from {0.02..1.0}); the history of each caller is checked by the same oracle and must be bit-identical to the same world executed alone (same key => same run, whatever other callers do)."
     ),
     "C16": (
         "Each run is one call of the real fit_to_data or fit_to_variational_target driven by a scripted loss (value = "
@@ -22,6 +23,7 @@ RULES = {
         "selection rule. NON-TRIVIAL: >=2 epochs/steps recorded and >=1 gradient step; DISTINCT by signature (loop, "
         "shape knobs, epochs/steps run, gradient steps, max_epochs, max_patience, return_best, rank pattern of the "
         "recorded loss sequence, oracle mode)."
+        " One run index in six (C15) / two in sixteen (C16) is a GROUP of 2-3 concurrent callers: the worlds of other indices of the same bucket (30 %: two callers with the very same key, data and knobs) run on real threads under a seeded baton-passing scheduler that may switch caller at every eagerly executed line of flowjax/train/*.py (switch probability per line drawn from {0.02..1.0}); the history of each caller is checked by the same oracle (stop/selection decided from the caller's own losses; returned parameters carry the caller's own run id)."
     ),
 }
 
@@ -65,12 +67,16 @@ ASSUMPTIONS = {
         "like training, skips less than one batch per epoch (documented behaviour of get_batches)",
         "exploration is seeded sampling, not enumeration: a clean batch is evidence, not proof",
         "the jr.permutation recording proxy only sharpens the 'trailing remainder' clause; when it is not interpretable the clause is skipped",
+        "concurrent callers: threads can be switched only at line events of eagerly executing frames of flowjax/train/*.py (not inside jitted "
+        "computations, jax internals or other flowjax modules); 'same key => same run' is read as holding next to other callers too",
     ],
     "C16": [
         "ordered io_callback delivers events in program order; the counting optimiser makes c equal the number of applied gradient steps",
         "with ties at the running minimum or NaN in the recorded losses the statement does not define 'the best'; those runs are checked "
         "under the relaxed oracle (counted separately in oracle_modes); +-inf are ordinary ordered values under the strict oracle",
         "exploration is seeded sampling, not enumeration of all orderings",
+        "concurrent callers: switch points are the eager lines of flowjax/train/*.py only; run-to-run equality is NOT demanded for C16 groups "
+        "(the statement does not promise determinism), only the stop/selection clauses per caller",
     ],
 }
 
@@ -103,9 +109,9 @@ REQUIRED_PROBES = {
     "C11": ["ctor_roundtrips", "states_checked", "teleport_fired", "sig_scale_min", "sig_tri_diag_min", "sig_df_min", "sig_mix_lse_absmax", "sig_spline_x_mindiff", "sig_planar_margin"],
     "C09": ["maf_nodes", "coupling_nodes", "states_checked", "teleport_fired", "sig_cond", "all_positive_states_checked", "prelude_same_sizes"],
     "C18": ["fault_rows", "fault_row_batches", "finite_loss_with_fault_row", "poison_checks", "inf_loss_batches", "clean_run"],
-    "C15": ["batch_1", "batch_gt_n", "cond", "remainder_skipped", "val_single_batch", "perm_seam_checked"],
+    "C15": ["batch_1", "batch_gt_n", "cond", "remainder_skipped", "val_single_batch", "perm_seam_checked", "group", "group_switches"],
     "C16": ["early_stop_hit", "best_not_last", "best_not_first", "tie_at_min", "nan_in_val", "inf_in_val", "max_epochs_0",
-            "patience_0", "multi_val_batches", "multi_train_batches", "vi_steps_0", "nan_in_losses", "inf_in_losses", "ran_to_max"],
+            "patience_0", "multi_val_batches", "multi_train_batches", "vi_steps_0", "nan_in_losses", "inf_in_losses", "ran_to_max", "group", "group_switches"],
 }
 OPTIONAL_FAULTS = {"C15": ["loss_tie_at_min", "degenerate_zero_epochs_or_steps", "loss_near_tie"]}
 
